@@ -2656,14 +2656,33 @@ func tryFunc(f func()) (ret interface{}) {
 // that may throw exceptions (such as Object.Get, Object.String, Object.ToInteger, Object.Export, Runtime.Get, Runtime.InstanceOf, etc.)
 // outside the Runtime execution context (i.e. when calling directly from Go, not from a JS function implemented in Go).
 func (r *Runtime) Try(f func()) *Exception {
+	if len(r.vm.callStack) == 0 {
+		defer r.leaveIfAborted()
+	}
 	return r.vm.try(f)
 }
 
 func (r *Runtime) try(f func()) error {
+	if len(r.vm.callStack) == 0 {
+		defer r.leaveIfAborted()
+	}
 	if ex := r.vm.try(f); ex != nil {
 		return ex
 	}
 	return nil
+}
+
+// leaveIfAborted is deferred by the API functions that may be called while no script is running and that let an
+// uncatchable exception (*InterruptedError, *StackOverflowError) propagate to the host as a panic (Try, New,
+// Object.Set, ...): control is passed outside the Runtime because of an interrupt, so, as in RunProgram and in
+// Callable, the queued promise jobs are dropped and the interrupt flag is reset.
+func (r *Runtime) leaveIfAborted() {
+	if x := recover(); x != nil {
+		if asUncatchableException(x) != nil && len(r.vm.callStack) == 0 {
+			r.leaveAbrupt()
+		}
+		panic(x)
+	}
 }
 
 func (r *Runtime) toObject(v Value, args ...interface{}) *Object {
